@@ -194,6 +194,16 @@ def cases(rng, tier):
                      f"({b} ㄱㅅㅎㄴ) (ㄱㅇㄱ ㄱㅇㄱ {SH} ㅎㄷ ㄱㅅㅎㄴ ㅎ) ㄱㄹㅎㄷ"):
             yield Case(program=prog, stdin="in\n", tag='too-large')
             yield Case(program=render(wrap_try(raw("(" + prog + ")"))), stdin="in\n", tag='too-large-try', monitor='c04_caught')
+    # (8c) long *sequential* I/O loops (right-nested ㄱㄹ: h(n) = return n >>= λx. h(n−1); reading / printing 600 … 2500 lines one
+    #      after another): no host RecursionError — an I/O loop is not a deep recursion (seeded change S04l let a bound action
+    #      execute its follow-up action itself instead of handing it back to the do_IO trampoline)
+    from . import c05 as _c05
+    for n_ in (600, 2500):
+        prog, _w = _c05.rbind(n_)
+        yield Case(program=prog, stdin="in\n", tag='long-io-loop', format_io=True, timeout=120, fuel=400 * n_ + 10 ** 6)
+        # count the lines of the input: loop(k) = ㄹ >>= λl. l is Nil ? return k : loop(k+1)
+        count = "ㄱ ((ㄹㅎㄱ) ((ㄱㅇㄴ ㄱㅅㅎㄴ) ((ㄱㅇㄴ ㄴ ㄷㅎㄷ) ㄴㅇ ㅎㄴ) (ㄱㅇㄱ (ㅂㄱㅎㄱ) ㄴㅎㄷ) ㅎㄷ ㅎ) ㄱㄹㅎㄷ ㅎ) ㅎㄴ"
+        yield Case(program=count, stdin="x\n" * n_, tag='long-io-loop-read', format_io=True, timeout=120, fuel=400 * n_ + 10 ** 6)
     # (9) the standard streams closed behind the interpreter's back (ㄱㄴ on descriptor 0 / 1, then ㄷ): in a child process
     yield Case(program="ㄱ", tag='std-closed', monitor='c04_std_closed', skip_model=True, timeout=120)
     # (7) random program texts
